@@ -161,8 +161,9 @@ theorem exists_obj_of_key {SO : List Obj} {k : Kind} {id : Int} (h : (k, id) ∈
 theorem rem_dbRemove {Rm : Nat → Rel} {n : Nat} {base : Base} (cx : Ctx Rm n base) (c : Cfg) {SO : List Obj}
     {s : State} (q : Nat) (hq : q < n) (w : WF Rm n s) (hsk : ∀ k, skel (s.getDb k) = base k)
     (hlive : ∃ mq, s.rdb[q]? = some ⟨q + 1, mq⟩) (harr : Arrived base SO q)
-    (hi : HInv c.fixed SO s) (m : Member) (ms : List Member) (r : RemInv q (m :: ms) s) (hm : m.ref ≠ 0) :
-    HInv c.fixed SO (dbRemove c s m.kind m.ref (Rm q).id) ∧ RemInv q ms (dbRemove c s m.kind m.ref (Rm q).id) := by
+    (hi : HInv c.fixed SO s) (hx : XInv s) (m : Member) (ms : List Member) (r : RemInv q (m :: ms) s) (hm : m.ref ≠ 0) :
+    HInv c.fixed SO (dbRemove c s m.kind m.ref (Rm q).id) ∧ RemInv q ms (dbRemove c s m.kind m.ref (Rm q).id) ∧
+    XInv (dbRemove c s m.kind m.ref (Rm q).id) := by
   have hs := sorted_of_skel hsk cx.sorted0 m.kind
   have hqlive : deadB s q = false := by obtain ⟨mq, h⟩ := hlive; simp [deadB, h]
   have hrel : ∀ e ∈ s.getDb m.kind, (s.relAt e.rpos).map (·.id) = some (Rm q).id ↔ e.rpos = q := by
@@ -236,7 +237,7 @@ theorem rem_dbRemove {Rm : Nat → Rel} {n : Nat} {base : Base} (cx : Ctx Rm n b
         · exact h ho0k
         · exact h ho0i
     · exact hg
-  constructor
+  refine ⟨?_, ?_, ?_⟩
   · refine ⟨?_, ?_, ?_⟩
     · intro k' x hx hpos o ho hok hoi
       rw [hdb] at hx hpos
@@ -342,28 +343,91 @@ theorem rem_dbRemove {Rm : Nat → Rel} {n : Nat} {base : Base} (cx : Ctx Rm n b
         have hk' : ¬ m.kind = k' := fun h => hk h.symm
         simpa [List.countP_cons, hk'] using hmine
 
+  · -- uniform handles, nothing leaks
+    refine ⟨?_, ?_⟩
+    · intro k' x hx' x' hx'' hmm
+      rw [hdb] at hx' hx''
+      split at hx'
+      · rename_i hk; subst hk
+        rw [if_pos rfl] at hx''
+        obtain ⟨y, hy, hmid, _, _, hh⟩ := mem_marked hx'
+        obtain ⟨y', hy', hmid', _, _, hh'⟩ := mem_marked hx''
+        rw [← hes] at hy hy'
+        have hyy : y.mid = y'.mid := by rw [← hmid, ← hmid', hmm]
+        rw [hh, hh', hyy, hx.uniform m.kind y hy y' hy' hyy]
+      · rename_i hk
+        rw [if_neg hk] at hx''
+        exact hx.uniform k' x hx' x' hx'' hmm
+    · intro h' o hg
+      rw [hf.1] at hg
+      have hg' : stashGet st h' = some (.obj o) := hg
+      -- the item was live before, and is not the released one
+      have hold : stashGet s.stash h' = some (.obj o) ∧ (liveRefs (s.getDb m.kind) m.ref = 1 → h' ≠ e0.h) := by
+        rw [← hst] at hg'
+        split at hg'
+        · rw [stashGet_stashRemove] at hg'
+          split at hg'
+          · cases hg'
+          · rename_i hne; exact ⟨hg', fun _ => hne⟩
+        · rename_i hnl; exact ⟨hg', fun h1 => absurd h1 hnl⟩
+      obtain ⟨k0, y, hy, hyh, hynum⟩ := hx.noleak h' o hold.1
+      by_cases hk0 : k0 = m.kind
+      · subst hk0
+        by_cases hyid : y.mid = m.ref
+        · -- same range as the removed reference
+          have hyh0 : y.h = e0.h := hx.uniform m.kind y hy e0 he0 (by rw [hyid, he0mid])
+          by_cases hl : liveRefs (s.getDb m.kind) m.ref = 1
+          · exact absurd (hyh.symm.trans hyh0) (hold.2 hl)
+          · have hbf : b = false := by rw [← hb]; simp [hl]
+            have h2 := hlr m.ref
+            simp only [if_true] at h2
+            have hpos' : 0 < liveRefs ((l1 ++ { e with num := none } :: l2).map (zap b m.ref)) m.ref := by omega
+            obtain ⟨x, hxm, hpx⟩ := List.countP_pos_iff.mp hpos'
+            simp only [Bool.and_eq_true, beq_iff_eq] at hpx
+            obtain ⟨y', hy', hmid', _, _, hh'⟩ := mem_marked hxm
+            rw [← hes] at hy'
+            refine ⟨m.kind, x, by rw [hdb, if_pos rfl]; exact hxm, ?_, hpx.2⟩
+            rw [hh', hbf]
+            simp only [Bool.false_and, Bool.false_eq_true, if_false]
+            rw [hx.uniform m.kind y' hy' y hy (by rw [← hmid', hpx.1, hyid]), hyh]
+        · -- another range of the same database: the element is untouched
+          have hyne : y ≠ e := fun h => hyid (h ▸ hemid)
+          have hzy : zap b m.ref y = y := by simp [zap, hyid]
+          have hmem : y ∈ (l1 ++ { e with num := none } :: l2).map (zap b m.ref) := by
+            rw [hes] at hy
+            apply List.mem_map.mpr
+            refine ⟨y, ?_, hzy⟩
+            rcases List.mem_append.mp hy with h | h
+            · simp [h]
+            · rcases List.mem_cons.mp h with h | h
+              · exact absurd h hyne
+              · simp [h]
+          exact ⟨m.kind, y, by rw [hdb, if_pos rfl]; exact hmem, hyh, hynum⟩
+      · exact ⟨k0, y, by rw [hdb, if_neg hk0]; exact hy, hyh, hynum⟩
+
 /-- `remove_members` of relation `q`: afterwards no element of `q` (member id ≠ 0) is left
     non-removed, every other element is as before, and the handle invariant holds. -/
 theorem rem_removeMembers {Rm : Nat → Rel} {n : Nat} {base : Base} (cx : Ctx Rm n base) (c : Cfg) {SO : List Obj}
     (q : Nat) (hq : q < n) (harr : Arrived base SO q) (ms : List Member) :
     ∀ {s : State}, WF Rm n s → (∀ k, skel (s.getDb k) = base k) →
-      (∃ mq, s.rdb[q]? = some ⟨q + 1, mq⟩) → HInv c.fixed SO s → RemInv q ms s →
-      HInv c.fixed SO (removeMembers c (Rm q).id s ms) ∧ RemInv q [] (removeMembers c (Rm q).id s ms) := by
+      (∃ mq, s.rdb[q]? = some ⟨q + 1, mq⟩) → HInv c.fixed SO s → XInv s → RemInv q ms s →
+      HInv c.fixed SO (removeMembers c (Rm q).id s ms) ∧ RemInv q [] (removeMembers c (Rm q).id s ms) ∧
+      XInv (removeMembers c (Rm q).id s ms) := by
   induction ms with
-  | nil => intro s _ _ _ hi r; exact ⟨hi, r⟩
+  | nil => intro s _ _ _ hi hx r; exact ⟨hi, r, hx⟩
   | cons m ms ih =>
-    intro s w hsk hlive hi r
+    intro s w hsk hlive hi hx r
     simp only [removeMembers]
     split
     · rename_i hm
-      obtain ⟨hi1, r1⟩ := rem_dbRemove cx c q hq w hsk hlive harr hi m ms r hm
+      obtain ⟨hi1, r1, hx1⟩ := rem_dbRemove cx c q hq w hsk hlive harr hi hx m ms r hm
       obtain ⟨w1, g1, _⟩ := w.dbRemove c m.kind m.ref (Rm q).id
       have hlive1 : ∃ mq, (dbRemove c s m.kind m.ref (Rm q).id).rdb[q]? = some ⟨q + 1, mq⟩ := by
         rw [(dbRemove_frame c s m.kind m.ref (Rm q).id).1]; exact hlive
-      exact ih w1 (fun k => (g1 k).trans (hsk k)) hlive1 hi1 r1
+      exact ih w1 (fun k => (g1 k).trans (hsk k)) hlive1 hi1 hx1 r1
     · rename_i hm
       have hm0 : m.ref = 0 := by simpa using hm
-      refine ih w hsk hlive hi ⟨r.other, r.zero, ?_⟩
+      refine ih w hsk hlive hi hx ⟨r.other, r.zero, ?_⟩
       intro k id hid
       have := r.mine k id hid
       have hne : ¬ (0 : Int) = id := fun h => hid h.symm
